@@ -37,7 +37,7 @@ var lgTable = []lgEntry{
 	{Rule: "L1", Func: "tensor.(*Dense).Zero", Site: "$r.array.Zero()", Goal: "!$r.IsMaterializable()", Props: []string{"C04"}, Why: "a raw zero through a view clears parent elements outside the view"},
 	{Rule: "L1", Func: "tensor.Copy", Site: "copyDense(%dt, %ts)", Goal: "(!%ts.RequiresIterator() && !%dt.RequiresIterator())", Props: []string{"C04"}, Why: "raw memcpy is only the logical copy when neither side needs an iterator"},
 	{Rule: "L3", Func: "tensor.Copy", Site: "copyDense(%dt, %ts)", Goal: "%ts.DataOrder().HasSameOrder(%dt.DataOrder())", Props: []string{"C16"}, Why: "a raw copy between a row-major and a column-major tensor rearranges the elements"},
-	{Rule: "L1", Func: "tensor.(*Dense).Transpose", Site: "%transposer.Transpose($r,", Goal: "(!$r.old.IsZero() && !(!($r.viewOf == 0) && $r.o.IsNotContiguous()))", Props: []string{"C04", "C03"}, Why: "materialising a lazy transpose rewrites the tensor's whole window in place: for a non-contiguous view the window holds parent elements that are not the view's"},
+	{Rule: "L1", Func: "tensor.(*Dense).Transpose", Site: "%transposer.Transpose($r,", Goal: "(!$r.old.IsZero() && !$r.o.IsNotContiguous())", Props: []string{"C04", "C03"}, Why: "materialising a lazy transpose rewrites the tensor's whole window in place: for a non-contiguous view the window holds parent elements that are not the view's, and the clone of such a view keeps the gaps in its own memory (finding 78)"},
 	{Rule: "L1", Func: "tensor.(*Dense).Materialize", Site: "return $r", Goal: "!$r.IsMaterializable()", Props: []string{"C04"}, Why: "only a tensor that is neither a view nor lazily transposed may stand for its own materialisation"},
 	{Rule: "L1", Func: "tensor.ToMat64", Site: "copy(%data, $t.Float64s())", Goal: "!$t.IsMaterializable()", Props: []string{"C04", "C14"}, Why: "raw export of a view/lazy transpose emits storage order, not logical order"},
 	{Rule: "L1", Func: "tensor.ToMat64", Site: "convToFloat64s($t)", Goal: "!$t.IsMaterializable()", Props: []string{"C04", "C14"}, Why: "raw export of a view/lazy transpose emits storage order, not logical order"},
